@@ -11,7 +11,7 @@
   4. snapshots are pure: Pos::pos takes &self                                                          (R7)
 Not decided: that decoding after a seek yields the right symbols (value level).
 """
-from vlib import sym, rules, effects
+from vlib import sym, rules, effects, anchors
 from vlib.effects import Unresolved
 import props.C08 as c08
 import props.C17 as c17
@@ -255,6 +255,8 @@ def peel_all(t):
 
 def check_seek_protocols(ctx, F):
     # RangeDecoder::seek
+    reader, _sk = anchors.window_reader(F)
+    rname = reader.defpath if reader is not None else '<window reader not resolved>'
     sk = [b for b in F.bodies if b.promoted is None and b.name == 'seek' and b.self_adt == RDEC and b.impl_trait == 'Seek']
     key = 'R2/seek-protocol/' + RDEC
     role = 'seek: bulk.seek(pos)? then point := read_point(bulk)? then state := state'
@@ -274,14 +276,14 @@ def check_seek_protocols(ctx, F):
             if sh[0] == 'Ok':
                 n_ok += 1
                 names = [e['callee'] for e in imp]
-                if len(imp) != 2 or not names[0].endswith('Seek::seek') or not names[1].endswith('::read_point'):
+                if len(imp) != 2 or not names[0].endswith('Seek::seek') or names[1] != rname:
                     bad = 'success path performs %s (expected Seek::seek then read_point)' % names
                     break
                 if imp[0]['args'][1] != ('in', (2, ('f', '0'))) or imp[0]['args'][0][1] != BULK or imp[1]['args'][0][1] != BULK:
                     bad = 'seek/read_point are not applied to self.bulk with the recorded backend position'
                     break
                 point = ev.final_read(r, (1, 'deref', ('f', 'point')))
-                if not (point[0] == 'unwrap' and sym.contains(point, lambda x: isinstance(x, tuple) and x and x[0] == 'call' and x[1].endswith('::read_point'))):
+                if not (point[0] == 'unwrap' and sym.contains(point, lambda x: isinstance(x, tuple) and x and x[0] == 'call' and x[1] == rname)):
                     bad = 'point is not the freshly read window (%s)' % sym.show(point)[:100]
                     break
                 if ev.final_read(r, (1, 'deref', ('f', 'state'))) != ('in', (2, ('f', '1'))):
@@ -306,10 +308,10 @@ def check_seek_protocols(ctx, F):
             if c.promoted is None and c.self_adt == RDEC:
                 for _, t in c.calls():
                     cd = rules.callee(t)
-                    if cd and cd['def'].endswith('::read_point'):
+                    if cd and cd['def'] == rname:
                         users.add(c.name)
         k2 = 'R4/read-point-shared/' + RDEC
-        if {'seek', 'from_compressed'} <= users or ('seek' in users and len(users) >= 2):
+        if 'seek' in users and len(users) >= 2:
             ctx.ok('R4', 'seek re-reads the window with the routine the constructors use', RDEC, 'read_point callers: %s' % sorted(users), key=k2)
         else:
             ctx.bad('R4', 'seek re-reads the window with the routine the constructors use', RDEC, 'read_point callers: %s' % sorted(users), key=k2)
